@@ -486,9 +486,16 @@ func raCorpus(engine string) []Case {
 			gvar("num", "\\d+"), regOp(3, []string{"PUT"}, "/n/{num}", false), regOp(4, []string{"PUT"}, "/m/{num:[a-z]+}", false), q("PUT", "/n/007"), q("PUT", "/m/ab"), q("PUT", "/m/12"),
 			gvar("sku", "[a-z-]+"), regOp(5, []string{"DELETE"}, "/items/{sku}", false), q("DELETE", "/items/ab"), q("DELETE", "/items/AB12"), q(p, "/items/AB12")}}
 	}
+	// request keys ("GET" + "/u/" + id) that collide under common 32-bit hash functions, on caching routers: each request
+	// gets its own id back, cached or not
+	var collide []Case
+	for _, pr := range collidingSuffixes("GET/u/") {
+		a, b := "/u/"+pr[0], "/u/"+pr[1]
+		collide = append(collide, Case{Ops: []string{"new 8 4 -", regOp(1, nil, "/u/{id}", false), q(g, a), q(g, b), q(g, a), sv(g, b), sv(g, a), "ckeys"}, Tag: "corpus-collide"})
+	}
 	switch engine {
 	case "route":
-		return append([]Case{overlap("new 0 0 -"), gv("new 0 0 -"), gv("new 4 0 -")}, raCorpus2(engine)...)
+		return append(append([]Case{overlap("new 0 0 -"), gv("new 0 0 -"), gv("new 4 0 -")}, collide...), raCorpus2(engine)...)
 	case "rcache":
 		return append([]Case{
 			// dynamic routes without variables: the params map of a hit is the one of a miss (empty, not nil)
@@ -497,7 +504,7 @@ func raCorpus(engine string) []Case {
 				q(g, "/blog"), q(g, "/blog"), sv(g, "/blog"), "ckeys"}},
 			{Ops: []string{"new 8 1 -", regOpMut(1, nil, "/blog[/index]"), sv(g, "/blog/index"), sv(g, "/blog/index"), q(g, "/blog/index"), sv(g, "/blog"), sv(g, "/blog/index"), sv(g, "/blog/index"), "ckeys"}},
 			overlap("new 8 2 -"), gv("new 8 3 -"),
-		}, raCorpus2(engine)...)
+		}, append(collide, raCorpus2(engine)...)...)
 	}
 	return raCorpus2(engine)
 }
